@@ -9,6 +9,7 @@ import PsModel.Primality
 import PsModel.FloatOracle
 import PsModel.SieveTable
 import PsModel.Erat
+import PsModel.Feed
 import PsModel.Parallel
 import PsModel.Store
 import PsModel.NthPrime
@@ -81,6 +82,7 @@ def iterLine (st : Iter) (op : String) : Iter × String :=
     | some s, some h => let st' := st.jumpTo s h; (st', iterState st')
     | _, _ => (st, "bad-op")
   | ["clear"] => let st' := st.clear; (st', iterState st')
+  | ["ss", _] => (st, iterState st)          -- set_sieve_size: no effect on what the iterator returns (C08)
   | ["movein"] => (st, iterState st)
   | ["moveout"] => (Iter.movedFrom, iterState Iter.movedFrom)
   | ["next", k] =>
@@ -234,8 +236,25 @@ def segLine (op : String) : String :=
       let mut total := 0
       let mut sum := 0
       let mut geo := ""
+      -- the feed loop (PsModel.Feed): what SievingPrimes::next() delivers is the primes of [165, isqrt(stop)], then ~0ull;
+      -- observed: prime_ after every segment (sum and last).  Only for stop ≤ 10^12 (the source is tabulated).
+      let feedOn := decide (stop ≤ 1000000000000)
+      let r := if feedOn then Nat.sqrt stop else 0
+      let base := simpleSieve r
+      let ps : Array Nat := Id.run do
+        let mut a : Array Nat := #[]
+        for p in [165 : r + 1] do
+          if base.get! p == 1 then a := a.push p
+        return a
+      let src : Nat → Nat := fun k => if k < ps.size then ps[k]! else umax
+      let mut fs : Feed.St := {}
+      let mut feedSum := 0
       for _ in [0 : 100000000] do
         if !g.hasNextSegment then break
+        if feedOn then
+          fs := Feed.feedSegment src g.segmentLow g.segmentHigh fs
+          fs := { fs with added := [] }     -- the record of calls is not observable; dropped to keep the run linear
+          feedSum := (feedSum + fs.prime) % U64
         let (low, bytes, g') := g.sieveSegment
         let r := segRange (max start 721) stop low bytes
         let cs := countSum r.1 r.2
@@ -245,7 +264,8 @@ def segLine (op : String) : String :=
           geo := geo ++ s!" [low={low} bytes={bytes} nlow={g'.segmentLow} nhigh={g'.segmentHigh}]"
         nseg := nseg + 1
         g := g'
-      return s!"segs={nseg} total={total} sum={sum} small={small} medium={medium} content=ok{geo}"
+      let feed := if feedOn then s!"{feedSum}:{fs.prime}" else "-"
+      return s!"segs={nseg} total={total} sum={sum} small={small} medium={medium} feed={feed} content=ok{geo}"
     | _, _, _, _ => "bad-op"
   | _ => "bad-op"
 
